@@ -82,8 +82,9 @@ def gen_var(rng, i, where):
         d["kind"] = nocomma_rel(rng)
     elif form == "strlen":
         d["vartype"] = "character"
-        d["strlen"] = rng.choice(["n", "2*k", f"len({lit(rng)})"])
+        d["strlen"] = rng.choice(["n", "2*k", f"len({lit(rng)})", "kind(k<n)", "kind(k>n)"])
         d["has_literal"] = "len(" in d["strlen"]
+        d["positional"] = d["strlen"].startswith("kind(")      # character(EXPR): the whole EXPR is the length
     elif form == "bindattr":
         d["attribs"] = [f"bind(c, name={lit(rng, body=rng.choice(['cname', 'a<b>c', '<u>x', 'q&r']))})"]
         d["has_literal"] = True
@@ -97,7 +98,7 @@ def render_var(d, ind="  "):
     if d["kind"]:
         typ += f"(kind={d['kind']})"
     elif d["strlen"]:
-        typ += f"(len={d['strlen']})"
+        typ += f"({d['strlen']})" if d.get("positional") else f"(len={d['strlen']})"
     parts = [typ]
     if d["intent"]:
         parts.append(f"intent({d['intent']})")
@@ -155,7 +156,7 @@ def gen_project(rng, mode=None):
         form = rng.choice(["kind", "strlen", "dimattr", "dim"]) if mode == "all" else "plain"
         iface = {"name": f"ifn{uid[0]}", "arg": nv("arg"), "abstract": rng.random() < 0.5, "retform": form,
                  "retkind": nocomma_rel(rng) if form == "kind" else None,
-                 "retlen": rng.choice(["n", "2*k", "kind(k<n)"]) if form == "strlen" else None,
+                 "retlen": rng.choice(["n", "kind(k<n)", "kind(k>n)"]) if form == "strlen" else None,
                  "retattr": f"dimension({rel_expr(rng)})" if form == "dimattr" else None,
                  "retdim": f"({rel_expr(rng)})" if form == "dim" else None}
     bound = None
@@ -172,7 +173,7 @@ def iface_ret_decl(f):
     if f["retform"] == "kind":
         return f"integer(kind={f['retkind']}) :: res"
     if f["retform"] == "strlen":
-        return f"character(len={f['retlen']}) :: res"
+        return f"character({f['retlen']}) :: res" if "(" in f["retlen"] else f"character(len={f['retlen']}) :: res"
     if f["retform"] == "dimattr":
         return f"integer, {f['retattr']} :: res"
     if f["retform"] == "dim":
